@@ -152,6 +152,11 @@ class LessLexer:
         # Example: @item: ~".col-xs-@{index}";
         #
         t.lexer.pop_state()
+        # The quote ends the escaped string as well: without leaving that
+        # state too, the rest of the sheet would be lexed as if inside it
+        # (no ';' supplied before '}', every '"' taken for a closing quote).
+        if t.lexer.lexstate in ('escapequotes', 'escapeapostrophe'):
+            t.lexer.pop_state()
         return t
 
     def t_iselector_css_filter(self, t):
